@@ -147,6 +147,7 @@ FRAMEWORK_CLASSES = {"InputReady": InputReadySignal, "InputReceived": InputRecei
 
 class World:
     def __init__(self, case):
+        self.silent = False
         self.case = case; self.screens = {}; self.srcs = {}; self.classes = {}; self.ucalls = {}; self.sigs = {}
     def obj(self, ref):
         if ref is None: return None
@@ -177,7 +178,9 @@ class World:
             if a[4] in self.sigs: s = self.sigs[a[4]]
             else:
                 s = self.cls(a[1])(self.obj(a[3]), a[2]); s.sid = a[4]; self.sigs[a[4]] = s
-            loop.enqueue_signal(s)
+            # from a screen callback every other signal is emitted through the screen's SignalHandler.emit
+            if me is not None and hasattr(me, "emit") and a[4] % 2 == 0: me.emit(s)
+            else: loop.enqueue_signal(s)
         elif k == "reg_source": loop.register_signal_source(self.obj(a[1]))
         elif k == "reg_handler":
             # a handler the application registers while the loop is running (an entry of case["handlers"] marked late)
@@ -191,10 +194,17 @@ class World:
         elif k == "force_quit": loop.force_quit()
         elif k == "raise_exit": raise ExitMainLoop()
         elif k == "raise_err": raise RuntimeError("scripted")
-        elif k == "schedule": sch.schedule_screen(self.screens[a[1]], a[2])
-        elif k == "push": sch.push_screen(self.screens[a[1]], a[2])
-        elif k == "push_modal": sch.push_screen_modal(self.screens[a[1]], a[2]); LOG.append(("modal<",))
-        elif k == "replace": sch.replace_screen(self.screens[a[1]], a[2])
+        elif k in ("schedule", "push", "push_modal", "replace"):
+            # every other stack operation goes through the public facade simpleline.render.screen_handler.ScreenHandler (which forwards to the scheduler)
+            self.nstack = getattr(self, "nstack", 0) + 1
+            if self.nstack % 2 == 0:
+                from simpleline.render.screen_handler import ScreenHandler
+                tgt = ScreenHandler
+            else: tgt = sch
+            if k == "schedule": tgt.schedule_screen(self.screens[a[1]], a[2])
+            elif k == "push": tgt.push_screen(self.screens[a[1]], a[2])
+            elif k == "push_modal": tgt.push_screen_modal(self.screens[a[1]], a[2]); LOG.append(("modal<",))
+            else: tgt.replace_screen(self.screens[a[1]], a[2])
         elif k == "close_direct": sch.close_screen()
         elif k == "close_sig": self.screens[a[1]].close()
         elif k == "redraw_sig": self.screens[a[1]].redraw()
@@ -226,6 +236,7 @@ def make_screen(W, spec):
             return ent.get("ret")
         def _script(s, cb): return s._run(s._take(cb))
         def setup(s, args):
+            if W.silent: return UIScreen.setup(s, args)
             LOG.append(("cb", s.sid, "setup", args)); r = s._script("setup")
             if r == "fail_before":
                 xlog(("cb<", s.sid, "setup", False)); return False
@@ -233,26 +244,57 @@ def make_screen(W, spec):
             xlog(("cb<", s.sid, "setup", r != "fail_after"))
             return r != "fail_after"
         def refresh(s, args=None):
+            if W.silent: return UIScreen.refresh(s, args)
             LOG.append(("cb", s.sid, "refresh", args)); ent = s._take("refresh"); UIScreen.refresh(s, args)
             if spec.get("text"): s.window.add(TextWidget(spec["text"]))
             s._run(ent); xlog(("cb<", s.sid, "refresh"))
         def show_all(s):
+            if W.silent: return UIScreen.show_all(s)
             LOG.append(("cb", s.sid, "show")); ent = s._take("show"); UIScreen.show_all(s); s._run(ent); xlog(("cb<", s.sid, "show"))
         def prompt(s, args=None):
+            if W.silent: return UIScreen.prompt(s, args)
             LOG.append(("cb", s.sid, "prompt", args)); r = s._script("prompt")
             if r == "none": return None
             return UIScreen.prompt(s, args)
         def input(s, args, key):
+            if W.silent: return key
             LOG.append(("cb", s.sid, "input", args, key)); r = s._script("input")
             if r is None: return key
             if r == "NONE": return None
             return RET.get(r, r)
         def closed(s):
+            if W.silent: return None
             LOG.append(("cb", s.sid, "closed")); s._script("closed"); xlog(("cb<", s.sid, "closed"))
     return Scr()
 
+def prelife(W):
+    """an earlier life of the application: App.initialize(), every screen object of the case shown once on its own and answered with the quit key, the application
+    ends; the callbacks are the base class's (nothing is logged, no script is consumed). The application then marks its screens as not set up (public setter) and
+    starts over with App.initialize(), which is documented as callable again: from there on everything must be as in a first life."""
+    global SESS
+    for scr in W.screens.values():
+        SESS = Session(["q"]); App.initialize(); App.get_configuration().width = 80
+        W.silent = True
+        buf = io.StringIO(); old = sys.stdout, sys.stderr; sys.stdout = sys.stderr = buf; OUTBUF[0] = buf
+        try:
+            App.get_scheduler().schedule_screen(scr)
+            try: App.run()
+            except BaseException: pass
+        finally:
+            sys.stdout, sys.stderr = old; OUTBUF[0] = None; W.silent = False
+            for t in [t for t in threading.enumerate() if t.name == "SimplelineInputThread"]:
+                SESS.dead = True; SESS.gate.release(); _join(t, 2)
+        scr.screen_ready = False
+
+
 def run_real(case, loopkind="main"):
     global SESS
+    W0 = None
+    if case.get("prelife") and loopkind == "main" and case.get("screens"):
+        LOG.clear(); Log.deliver_at = set(); del XLOG[:]; _QUIDS.clear(); OUTBUF[0] = None
+        App.initialize(); W0 = World(case)
+        for spec in case["screens"]: W0.screens[spec["id"]] = make_screen(W0, spec)
+        prelife(W0)
     SESS = Session(case["stdin"]); LOG.clear(); Log.deliver_at = set(case.get("deliver_at", [])); del XLOG[:]; _QUIDS.clear(); OUTBUF[0] = None
     if loopkind == "glib":
         sys.path.insert(0, os.path.join(os.path.dirname(os.path.abspath(__file__)), "fakegi"))
@@ -284,8 +326,9 @@ def run_real(case, loopkind="main"):
         App.initialize(event_loop=BudgetMainLoop())
     App.get_configuration().width = case.get("width", 80)
     App.get_configuration().should_run_with_empty_stack = bool(case.get("run_empty"))
-    W = World(case); loop = App.get_event_loop()
-    for spec in case["screens"]: W.screens[spec["id"]] = make_screen(W, spec)
+    W = W0 or World(case); loop = App.get_event_loop()
+    if W0 is None:
+        for spec in case["screens"]: W.screens[spec["id"]] = make_screen(W, spec)
     if case.get("quit_screen") is not None: App.get_scheduler().quit_screen = W.screens[case["quit_screen"]]
     def mkh(h):
         def f(sig, data):
@@ -308,7 +351,8 @@ def run_real(case, loopkind="main"):
         f = funcs.setdefault(h["hid"], mkh(h))
         if h["hid"] % 2 == 1 and hid_count[h["hid"]] == 1:
             f = _Receiver(f).on_signal          # every other handler is a bound method of an object the application does not keep
-        loop.register_signal_handler(W.cls(h["cls"]), f, h.get("data"))
+        if W.screens and h["hid"] % 3 == 2: next(iter(W.screens.values())).connect(W.cls(h["cls"]), f, h.get("data"))       # SignalHandler.connect of a screen
+        else: loop.register_signal_handler(W.cls(h["cls"]), f, h.get("data"))
     import gc; gc.collect()
     if case.get("exc_handler"):
         exc_calls = [0]
